@@ -13,7 +13,7 @@ ROWDEC = ["upcean", "ean13", "ean8", "upca", "upce", "code39", "code39c", "code3
 OWN = [["qr", "multiqr", "multiqr.multi"], ["dm"], ["ean13", "upcean"], ["ean8", "upcean"], ["upca", "upcean", "ean13"],
        ["upce", "upcean"], ["code39", "code39c", "code39x", "code39x"], ["code93"], ["code128"], ["itf"], ["codabar"]]
 DM_SIZES = [8, 10, 12, 14, 16, 18, 20, 22, 24, 26, 32, 36, 40, 44, 48, 52, 64, 72, 80, 88, 96, 104, 120, 132, 144]
-OD_APIS = {"od.code93": ["code93"], "od.code39": ["code39", "code39x"], "od.code39k": ["code39c", "code39x"],
+OD_APIS = {"od.code93": ["code93"], "od.code39": ["code39", "code39x", "code39c"], "od.code39k": ["code39c", "code39x"],
            "od.code128": ["code128"], "od.codabar": ["codabar"]}
 EXPECTED_WHY = {  # every deciding branch of the reference automata must be reached by the TLC-generated streams
     "qr.end-of-data", "qr.terminator", "qr.reserved-mode", "qr.structured-append-truncated", "qr.eci-truncated",
